@@ -544,8 +544,11 @@ static int Slice_Cmp(var self, var obj) {
 static var Slice_Iter_Init(var self) {
   struct Slice* s = self;
   struct Range* r = s->range;
+  struct Int* pos = r->value;
   
   if (r->step > 0) {
+    pos->val = r->start;
+    if (pos->val >= r->stop) { return Terminal; }
     var curr = iter_init(s->iter);
     for(int64_t i = 0; i < r->start; i++) {
       curr = iter_next(s->iter, curr);
@@ -554,27 +557,34 @@ static var Slice_Iter_Init(var self) {
   }
   
   if (r->step < 0) {
+    pos->val = r->stop-1;
+    if (pos->val < r->start) { return Terminal; }
     var curr = iter_last(s->iter);
     for (int64_t i = 0; i < (int64_t)len(s->iter)-r->stop; i++) {
       curr = iter_prev(s->iter, curr);
     }
     return curr;
   }
-
+  
   return Terminal;
 }
 
 static var Slice_Iter_Next(var self, var curr) {
   struct Slice* s = self;
   struct Range* r = s->range;
+  struct Int* pos = r->value;
+  
+  pos->val += r->step;
   
   if (r->step > 0) {
+    if (pos->val >= r->stop) { return Terminal; }
     for (int64_t i = 0; i < r->step; i++) {
       curr = iter_next(s->iter, curr);
     }
   }
   
   if (r->step < 0) {
+    if (pos->val < r->start) { return Terminal; }
     for (int64_t i = 0; i < -r->step; i++) {
       curr = iter_prev(s->iter, curr);
     }
@@ -591,37 +601,47 @@ static var Slice_Iter_Type(var self) {
 static var Slice_Iter_Last(var self) {
   struct Slice* s = self;
   struct Range* r = s->range;
+  struct Int* pos = r->value;
+  
+  if (r->stop <= r->start) { return Terminal; }
   
   if (r->step > 0) {
+    pos->val = r->start + (((r->stop-1) - r->start) / r->step) * r->step;
     var curr = iter_last(s->iter);
-    for(int64_t i = 0; i < (int64_t)len(s->iter)-r->stop; i++) {
+    for(int64_t i = 0; i < (int64_t)len(s->iter)-1-pos->val; i++) {
       curr = iter_prev(s->iter, curr);
     }
     return curr;
   }
   
   if (r->step < 0) {
+    pos->val = (r->stop-1) - (((r->stop-1) - r->start) / -r->step) * -r->step;
     var curr = iter_init(s->iter);
-    for(int64_t i = 0; i < r->start; i++) {
+    for(int64_t i = 0; i < pos->val; i++) {
       curr = iter_next(s->iter, curr);
     }
     return curr;
   }
-
+  
   return Terminal;
 }
 
 static var Slice_Iter_Prev(var self, var curr) {
   struct Slice* s = self;
   struct Range* r = s->range;
+  struct Int* pos = r->value;
+  
+  pos->val -= r->step;
   
   if (r->step > 0) {
+    if (pos->val < r->start) { return Terminal; }
     for (int64_t i = 0; i < r->step; i++) {
       curr = iter_prev(s->iter, curr);
     }
   }
   
   if (r->step < 0) {
+    if (pos->val >= r->stop) { return Terminal; }
     for (int64_t i = 0; i < -r->step; i++) {
       curr = iter_next(s->iter, curr);
     }
